@@ -30,6 +30,18 @@ package isobmff
 // of any box around it. (The unsigned sum cannot wrap: 0 <= pos <= 2^62 and 0 <= remain < 2^63.)
 //@ spec lvl(a, r) = uint64(pos(r.br)) + uint64(a.remain) <= old(uint64(pos(r.br)) + uint64(a.remain))
 //@ spec charged(b) = lvl(b, b.reader) && (b.outer != nil ==> lvl(b.outer, b.reader) && (b.outer.outer != nil ==> lvl(b.outer.outer, b.reader)))
+// C11 exact resumption: the outermost box of the chain is charged EXACTLY what is consumed (its end does not move at all),
+// unless the stream ended early (a short discard at end of input) - so closing it leaves the reader at the next box.
+//@ spec atEnd(r) = pos(r.br) == lim(r.br) || fault(r.br)
+//@ spec eqEnd(a, r) = atEnd(r) || uint64(pos(r.br)) + uint64(a.remain) == old(uint64(pos(r.br)) + uint64(a.remain))
+//@ spec sticky(r) = old(pos(r.br) == lim(r.br) || fault(r.br)) ==> atEnd(r)
+//@ spec exactTop(b) = sticky(b.reader) && (b.outer == nil ==> eqEnd(b, b.reader)) && (b.outer != nil && b.outer.outer == nil ==> eqEnd(b.outer, b.reader)) && (b.outer != nil && b.outer.outer != nil ==> eqEnd(b.outer.outer, b.reader))
+// C11 hand-off: the directory a CR3 CMT box (or the HEIF Exif item) is decoded as - CMT1 root, CMT2 Exif, CMT3 maker note,
+// CMT4 GPS (Canon CR3 layout: CMT1..4 hold IFD0, the Exif IFD, the Canon maker note and the GPS IFD, each as a TIFF block)
+//@ spec cmtDir(t, d) = (t == isobmff.typeCMT1 ==> d == ifds.IFD0) && (t == isobmff.typeCMT2 ==> d == ifds.ExifIFD) && (t == isobmff.typeCMT3 ==> d == ifds.MknoteIFD) && (t == isobmff.typeCMT4 ==> d == ifds.GPSIFD) && (t == isobmff.typeExif ==> d == ifds.IFD0)
+// the Exif header handed to the callback was read from the 8 bytes (TIFF header) just before the current position, and
+// its length is the whole payload of the box (the part still unread plus those 8 bytes)
+//@ spec hdrAt(h, rd, p) = (sigLEat(rd, p) ==> h.ByteOrder == utils.LittleEndian && h.FirstIfdOffset == le32At(rd, p+4)) && (sigBEat(rd, p) ==> h.ByteOrder == utils.BigEndian && h.FirstIfdOffset == be32At(rd, p+4)) && (!isSigAt(rd, p) ==> h.ByteOrder == utils.UnknownEndian)
 // n more bytes fit into the box and into every box around it
 //@ spec allFit(b, n) = b.remain >= n && (b.outer != nil ==> b.outer.remain >= n && (b.outer.outer != nil ==> b.outer.outer.remain >= n))
 // every box of the chain was charged exactly n
@@ -44,6 +56,7 @@ package isobmff
 //@   ensures r1 == nil ==> len(r0) == n && n >= 0 && pos(r.br) + n <= lim(r.br)
 //@   ensures r1 != nil ==> len(r0) < n || n < 0
 //@   ensures arr(r0) == sid(r.br) && off(r0) == pos(r.br) && cap(r0) >= len(r0) && len(r0) >= 0
+//@   ensures sticky(r)
 
 //@ func (*Reader).discard
 //@   props C01 C02 C11
@@ -52,6 +65,8 @@ package isobmff
 //@   ensures n >= 0 ==> 0 <= r0 && r0 <= n && pos(r.br) == old(pos(r.br)) + r0
 //@   ensures n < 0 ==> r0 == 0 && r1 != nil && pos(r.br) == old(pos(r.br))
 //@   ensures r1 == nil ==> r0 == n
+//@   ensures [C11] n >= 0 && r0 < n ==> r1 != nil && atEnd(r)
+//@   ensures sticky(r)
 
 //@ func (*box).Peek
 //@   props C01 C02 C11
@@ -63,6 +78,7 @@ package isobmff
 //@   ensures [C11] r1 == nil ==> len(r0) == n && n >= 0 && allFit(b, n)
 //@   ensures r1 != nil ==> len(r0) < n || n < 0 || len(r0) == 0
 //@   ensures r1 == nil ==> arr(r0) == sid(b.reader.br) && off(r0) == pos(b.reader.br)
+//@   ensures sticky(b.reader)
 //@   ensures cap(r0) >= len(r0) && len(r0) >= 0
 
 //@ func (*box).Discard
@@ -77,16 +93,17 @@ package isobmff
 //@   ensures [C11] b.remain == ite(old(b.remain) >= n, old(b.remain) - n, old(b.remain))
 //@   ensures chOK(b) && (old(b.remain) >= 0 ==> wf2(b))
 //@   uses end_mono(old(pos(b.reader.br)), r0, old(b.remain), n)
-//@   ensures noInc(b) && charged(b)
+//@   ensures noInc(b) && charged(b) && exactTop(b)
 
 //@ func (*box).close
 //@   props C01 C02 C11
 //@   requires wf2(b)
 //@   modifies stream(b.reader.br), b.remain, b.outer.remain, b.outer.outer.remain, b.reader.offset
 //@   ensures [C11] r0 == nil ==> b.remain == 0 && pos(b.reader.br) == old(pos(b.reader.br)) + old(b.remain)
+//@   ensures [C11] old(b.remain) == 0 ==> r0 == nil
 //@   ensures pos(b.reader.br) >= old(pos(b.reader.br))
 //@   ensures wf2(b)
-//@   ensures noInc(b) && charged(b)
+//@   ensures noInc(b) && charged(b) && exactTop(b)
 
 
 // C11: a child box is framed by its 32-bit size (or 64-bit size after the type when the 32-bit field is 1); on success
@@ -97,15 +114,17 @@ package isobmff
 //@   modifies stream(b.reader.br), b.remain, b.outer.remain, b.outer.outer.remain, b.reader.offset
 //@   ensures remOK(b) && pos(b.reader.br) >= old(pos(b.reader.br))
 //@   ensures [C11] next ==> inner.outer == b && inner.reader == b.reader && inner.remain >= 0 && inner.remain <= int(inner.size)
+//@   ensures [C11] next && err == nil ==> inner.size == boxSizeAt(b.reader.br, old(pos(b.reader.br))) && inner.remain == int(inner.size) - boxHdrAt(b.reader.br, old(pos(b.reader.br))) && pos(b.reader.br) == old(pos(b.reader.br)) + boxHdrAt(b.reader.br, old(pos(b.reader.br)))
 //@   ensures [C02 C11] next && err == nil ==> b.remain <= old(b.remain) - 8 && pos(b.reader.br) >= old(pos(b.reader.br)) + 8
 //@   ensures [C11] !next ==> b.remain == old(b.remain) && pos(b.reader.br) == old(pos(b.reader.br))
-//@   ensures noInc(b) && charged(b)
+//@   ensures noInc(b) && charged(b) && exactTop(b)
 
 //@ func (*Reader).readBox
 //@   props C01 C02 C11
 //@   requires r.br != nil
 //@   modifies stream(r.br), r.offset
 //@   ensures [C11] err == nil ==> b.reader == r && b.outer == nil && b.remain >= 0 && pos(r.br) >= old(pos(r.br)) + 8
+//@   ensures [C11] err == nil ==> b.size == boxSizeAt(r.br, old(pos(r.br))) && b.remain == int(b.size) - boxHdrAt(r.br, old(pos(r.br))) && pos(r.br) == old(pos(r.br)) + boxHdrAt(r.br, old(pos(r.br)))
 //@   ensures pos(r.br) >= old(pos(r.br))
 
 //@ func (*box).readUint16
@@ -113,21 +132,21 @@ package isobmff
 //@   requires wf2(b)
 //@   modifies stream(b.reader.br), b.remain, b.outer.remain, b.outer.outer.remain, b.reader.offset
 //@   ensures remOK(b) && pos(b.reader.br) >= old(pos(b.reader.br)) 
-//@   ensures noInc(b) && charged(b)
+//@   ensures noInc(b) && charged(b) && exactTop(b)
 
 //@ func (*box).readUUID
 //@   props C01 C02 C11
 //@   requires wf2(b)
 //@   modifies stream(b.reader.br), b.remain, b.outer.remain, b.outer.outer.remain, b.reader.offset
 //@   ensures remOK(b) && pos(b.reader.br) >= old(pos(b.reader.br)) 
-//@   ensures noInc(b) && charged(b)
+//@   ensures noInc(b) && charged(b) && exactTop(b)
 
 //@ func (*box).readFlags
 //@   props C01 C02 C11
 //@   requires wf2(b)
 //@   modifies stream(b.reader.br), b.remain, b.outer.remain, b.outer.outer.remain, b.reader.offset, b.flags
 //@   ensures remOK(b) && pos(b.reader.br) >= old(pos(b.reader.br)) 
-//@   ensures noInc(b) && charged(b)
+//@   ensures noInc(b) && charged(b) && exactTop(b)
 
 //@ func (*box).readFlagsFromBuf
 //@   props C01
@@ -236,7 +255,7 @@ package isobmff
 //@   props C01 C02 C11
 //@   requires wf2(b)
 //@   modifies stream(b.reader.br), b.remain, b.outer.remain, b.outer.outer.remain, b.reader.offset, mem(p)
-//@   ensures remOK(b) && pos(b.reader.br) >= old(pos(b.reader.br)) && noInc(b) && charged(b)
+//@   ensures remOK(b) && pos(b.reader.br) >= old(pos(b.reader.br)) && noInc(b) && charged(b) && exactTop(b)
 //@   ensures 0 <= n && n <= len(p)
 //@   uses end_mono(old(pos(b.reader.br)), n, old(b.remain), n); end_mono(old(pos(b.reader.br)), n, old(b.outer.remain), n); end_mono(old(pos(b.reader.br)), n, old(b.outer.outer.remain), n)
 
@@ -245,91 +264,96 @@ package isobmff
 //@   props C01 C02 C11
 //@   requires wf2(b)
 //@   modifies stream(b.reader.br), b.remain, b.outer.remain, b.outer.outer.remain, b.reader.offset
-//@   ensures remOK(b) && pos(b.reader.br) >= old(pos(b.reader.br)) && noInc(b) && charged(b)
+//@   ensures remOK(b) && pos(b.reader.br) >= old(pos(b.reader.br)) && noInc(b) && charged(b) && exactTop(b)
 
 
 //@ func readCNCVBox
 //@   props C01 C02 C11
 //@   requires wf2(b)
 //@   modifies stream(b.reader.br), b.remain, b.outer.remain, b.outer.outer.remain, b.reader.offset
-//@   ensures remOK(b) && pos(b.reader.br) >= old(pos(b.reader.br)) && noInc(b) && charged(b)
+//@   ensures remOK(b) && pos(b.reader.br) >= old(pos(b.reader.br)) && noInc(b) && charged(b) && exactTop(b)
 
 
 //@ func readCTBOBox
 //@   props C01 C02 C11
 //@   requires wf2(b)
 //@   modifies stream(b.reader.br), b.remain, b.outer.remain, b.outer.outer.remain, b.reader.offset
-//@   ensures remOK(b) && pos(b.reader.br) >= old(pos(b.reader.br)) && noInc(b) && charged(b)
+//@   ensures remOK(b) && pos(b.reader.br) >= old(pos(b.reader.br)) && noInc(b) && charged(b) && exactTop(b)
 
 
 //@ func readCrxTrakBox
 //@   props C01 C02 C11
 //@   requires wf2(b)
 //@   modifies stream(b.reader.br), b.remain, b.outer.remain, b.outer.outer.remain, b.reader.offset
-//@   ensures remOK(b) && pos(b.reader.br) >= old(pos(b.reader.br)) && noInc(b) && charged(b)
+//@   ensures remOK(b) && pos(b.reader.br) >= old(pos(b.reader.br)) && noInc(b) && charged(b) && exactTop(b)
 
 
 //@ func readPitm
 //@   props C01 C02 C11
 //@   requires wf2(b)
 //@   modifies stream(b.reader.br), b.remain, b.outer.remain, b.outer.outer.remain, b.reader.offset, b.flags
-//@   ensures remOK(b) && pos(b.reader.br) >= old(pos(b.reader.br)) && noInc(b) && charged(b)
+//@   ensures remOK(b) && pos(b.reader.br) >= old(pos(b.reader.br)) && noInc(b) && charged(b) && exactTop(b)
 
 
 //@ func readIdat
 //@   props C01 C02 C11
 //@   requires wf2(b)
 //@   modifies stream(b.reader.br), b.remain, b.outer.remain, b.outer.outer.remain, b.reader.offset
-//@   ensures remOK(b) && pos(b.reader.br) >= old(pos(b.reader.br)) && noInc(b) && charged(b)
+//@   ensures remOK(b) && pos(b.reader.br) >= old(pos(b.reader.br)) && noInc(b) && charged(b) && exactTop(b)
 
 
 //@ func readHdlr
 //@   props C01 C02 C11
 //@   requires wf2(b)
 //@   modifies stream(b.reader.br), b.remain, b.outer.remain, b.outer.outer.remain, b.reader.offset, b.flags
-//@   ensures remOK(b) && pos(b.reader.br) >= old(pos(b.reader.br)) && noInc(b) && charged(b)
+//@   ensures remOK(b) && pos(b.reader.br) >= old(pos(b.reader.br)) && noInc(b) && charged(b) && exactTop(b)
 
 
 //@ func readIpma
 //@   props C01 C02 C11
 //@   requires wf2(b)
 //@   modifies stream(b.reader.br), b.remain, b.outer.remain, b.outer.outer.remain, b.reader.offset, b.flags
-//@   ensures remOK(b) && pos(b.reader.br) >= old(pos(b.reader.br)) && noInc(b) && charged(b)
+//@   ensures remOK(b) && pos(b.reader.br) >= old(pos(b.reader.br)) && noInc(b) && charged(b) && exactTop(b)
 
 
 //@ func readIpco
 //@   props C01 C02 C11
 //@   requires wf2(b)
 //@   modifies stream(b.reader.br), b.remain, b.outer.remain, b.outer.outer.remain, b.reader.offset
-//@   ensures remOK(b) && pos(b.reader.br) >= old(pos(b.reader.br)) && noInc(b) && charged(b)
+//@   ensures remOK(b) && pos(b.reader.br) >= old(pos(b.reader.br)) && noInc(b) && charged(b) && exactTop(b)
 
 
 //@ func readIlocHeader
 //@   props C01 C02 C11
 //@   requires wf2(b)
 //@   modifies stream(b.reader.br), b.remain, b.outer.remain, b.outer.outer.remain, b.reader.offset, b.flags
-//@   ensures remOK(b) && pos(b.reader.br) >= old(pos(b.reader.br)) && noInc(b) && charged(b)
+//@   ensures remOK(b) && pos(b.reader.br) >= old(pos(b.reader.br)) && noInc(b) && charged(b) && exactTop(b)
 
 
 //@ func readExifHeader
-//@   props C01 C02 C11
+//@   props C01 C02 C06 C07 C11
 //@   requires wf2(b)
 //@   modifies stream(b.reader.br), b.remain, b.outer.remain, b.outer.outer.remain, b.reader.offset
-//@   ensures remOK(b) && pos(b.reader.br) >= old(pos(b.reader.br)) && noInc(b) && charged(b)
+//@   ensures remOK(b) && pos(b.reader.br) >= old(pos(b.reader.br)) && noInc(b) && charged(b) && exactTop(b)
+//@   ensures [C06 C11] err == nil ==> header.FirstIfd == firstIfd && header.TiffHeaderOffset == 0 && header.ExifLength == uint32(old(b.remain))
+//@   ensures [C06 C07 C11] err == nil ==> hdrAt(header, b.reader.br, old(pos(b.reader.br)))
+//@   ensures [C06 C11] err == nil ==> pos(b.reader.br) == old(pos(b.reader.br)) + 8 && b.remain == old(b.remain) - 8
 
 
 //@ func parsePreviewBox
 //@   props C01 C02 C11
 //@   requires wf2(b)
 //@   modifies stream(b.reader.br), b.remain, b.outer.remain, b.outer.outer.remain, b.reader.offset
-//@   ensures remOK(b) && pos(b.reader.br) >= old(pos(b.reader.br)) && noInc(b) && charged(b)
+//@   ensures remOK(b) && pos(b.reader.br) >= old(pos(b.reader.br)) && noInc(b) && charged(b) && exactTop(b)
+//@   ensures [C11] err == nil ==> pos(b.reader.br) == old(pos(b.reader.br)) + 24 && b.remain == old(b.remain) - 24
+//@   ensures [C11] err == nil ==> prvw.Size == be32At(b.reader.br, old(pos(b.reader.br)) + 20) && prvw.Width == be16At(b.reader.br, old(pos(b.reader.br)) + 14) && prvw.Height == be16At(b.reader.br, old(pos(b.reader.br)) + 16)
 
 
 //@ func (*Reader).readIloc
 //@   props C01 C02 C11
 //@   requires wf2(b)
 //@   modifies stream(b.reader.br), b.remain, b.outer.remain, b.outer.outer.remain, b.reader.offset, b.flags, r.heic
-//@   ensures remOK(b) && pos(b.reader.br) >= old(pos(b.reader.br)) && noInc(b) && charged(b)
+//@   ensures remOK(b) && pos(b.reader.br) >= old(pos(b.reader.br)) && noInc(b) && charged(b) && exactTop(b)
 //@   loop 0 invariant 0 <= i
 //@   loop 0 decreases len(buf) - i
 //@   loop 1 invariant 0 <= i && 0 <= j
@@ -340,7 +364,7 @@ package isobmff
 //@   props C01 C02 C11
 //@   requires wf2(b)
 //@   modifies stream(b.reader.br), b.remain, b.outer.remain, b.outer.outer.remain, b.reader.offset, r.heic
-//@   ensures remOK(b) && pos(b.reader.br) >= old(pos(b.reader.br)) && noInc(b) && charged(b)
+//@   ensures remOK(b) && pos(b.reader.br) >= old(pos(b.reader.br)) && noInc(b) && charged(b) && exactTop(b)
 //@   loop 0 invariant 0 <= i
 //@   loop 0 decreases len(buf) - i
 
@@ -349,15 +373,15 @@ package isobmff
 //@   props C01 C02 C11
 //@   requires wf2(b)
 //@   modifies stream(b.reader.br), b.remain, b.outer.remain, b.outer.outer.remain, b.reader.offset, b.flags, r.heic
-//@   ensures remOK(b) && pos(b.reader.br) >= old(pos(b.reader.br)) && noInc(b) && charged(b)
+//@   ensures remOK(b) && pos(b.reader.br) >= old(pos(b.reader.br)) && noInc(b) && charged(b) && exactTop(b)
 
 
 //@ func readIprp
 //@   props C01 C02 C11
 //@   requires wf1(b)
 //@   modifies stream(b.reader.br), b.remain, b.outer.remain, b.outer.outer.remain, b.reader.offset, box.flags
-//@   ensures remOK(b) && pos(b.reader.br) >= old(pos(b.reader.br)) && noInc(b) && charged(b)
-//@   loop 0 invariant remOK(b) && pos(b.reader.br) >= old(pos(b.reader.br)) && noInc(b) && charged(b)
+//@   ensures remOK(b) && pos(b.reader.br) >= old(pos(b.reader.br)) && noInc(b) && charged(b) && exactTop(b)
+//@   loop 0 invariant remOK(b) && pos(b.reader.br) >= old(pos(b.reader.br)) && noInc(b) && charged(b) && exactTop(b)
 //@   loop 0 invariant ok && err == nil ==> inner.outer == b && inner.reader == b.reader && inner.remain >= 0
 //@   loop 0 decreases ite(ok && err == nil, 1, 0), b.remain
 
@@ -366,25 +390,26 @@ package isobmff
 //@   props C01 C02 C11
 //@   requires wf1(b)
 //@   modifies stream(b.reader.br), b.remain, b.outer.remain, b.outer.outer.remain, b.reader.offset, b.flags
-//@   ensures remOK(b) && pos(b.reader.br) >= old(pos(b.reader.br)) && noInc(b) && charged(b)
-//@   loop 0 invariant remOK(b) && pos(b.reader.br) >= old(pos(b.reader.br)) && noInc(b) && charged(b)
+//@   ensures remOK(b) && pos(b.reader.br) >= old(pos(b.reader.br)) && noInc(b) && charged(b) && exactTop(b)
+//@   loop 0 invariant remOK(b) && pos(b.reader.br) >= old(pos(b.reader.br)) && noInc(b) && charged(b) && exactTop(b)
 //@   loop 0 invariant ok && err == nil ==> inner.outer == b && inner.reader == b.reader && inner.remain >= 0
 //@   loop 0 decreases ite(ok && err == nil, 1, 0), b.remain
 
 
 //@ func readCMTBox
-//@   props C01 C02 C11
+//@   props C01 C02 C06 C11
 //@   requires wf2(b)
+//@   requires [C11] cmtDir(b.boxType, ifdType)
 //@   modifies stream(b.reader.br), b.remain, b.outer.remain, b.outer.outer.remain, b.reader.offset, foreign
-//@   ensures remOK(b) && pos(b.reader.br) >= old(pos(b.reader.br)) && noInc(b) && charged(b)
+//@   ensures remOK(b) && pos(b.reader.br) >= old(pos(b.reader.br)) && noInc(b) && charged(b) && exactTop(b)
 
 
 //@ func readCrxMoovBox
 //@   props C01 C02 C11
 //@   requires wf1(b)
 //@   modifies stream(b.reader.br), b.remain, b.outer.remain, b.outer.outer.remain, b.reader.offset, foreign
-//@   ensures remOK(b) && pos(b.reader.br) >= old(pos(b.reader.br)) && noInc(b) && charged(b)
-//@   loop 0 invariant remOK(b) && pos(b.reader.br) >= old(pos(b.reader.br)) && noInc(b) && charged(b)
+//@   ensures remOK(b) && pos(b.reader.br) >= old(pos(b.reader.br)) && noInc(b) && charged(b) && exactTop(b)
+//@   loop 0 invariant remOK(b) && pos(b.reader.br) >= old(pos(b.reader.br)) && noInc(b) && charged(b) && exactTop(b)
 //@   loop 0 invariant ok && err == nil ==> inner.outer == b && inner.reader == b.reader && inner.remain >= 0
 //@   loop 0 decreases ite(ok && err == nil, 1, 0), b.remain
 
@@ -393,7 +418,7 @@ package isobmff
 //@   props C01 C02 C11
 //@   requires wf1(b)
 //@   modifies stream(b.reader.br), b.remain, b.outer.remain, b.outer.outer.remain, b.reader.offset
-//@   ensures remOK(b) && pos(b.reader.br) >= old(pos(b.reader.br)) && noInc(b) && charged(b)
+//@   ensures remOK(b) && pos(b.reader.br) >= old(pos(b.reader.br)) && noInc(b) && charged(b) && exactTop(b)
 //@   ensures err == nil ==> inner.outer == b && inner.reader == b.reader && inner.remain >= 0
 
 
@@ -401,23 +426,26 @@ package isobmff
 //@   props C01 C02 C11
 //@   requires wf1(b)
 //@   modifies stream(b.reader.br), b.remain, b.outer.remain, b.outer.outer.remain, b.reader.offset, r.prvw, foreign
-//@   ensures remOK(b) && pos(b.reader.br) >= old(pos(b.reader.br)) && noInc(b) && charged(b)
+//@   ensures remOK(b) && pos(b.reader.br) >= old(pos(b.reader.br)) && noInc(b) && charged(b) && exactTop(b)
 
 
 //@ func (*Reader).readUUIDBox
 //@   props C01 C02 C11
 //@   requires wf1(b)
 //@   modifies stream(b.reader.br), b.remain, b.outer.remain, b.outer.outer.remain, b.reader.offset, r.prvw, foreign
-//@   ensures remOK(b) && pos(b.reader.br) >= old(pos(b.reader.br)) && noInc(b) && charged(b)
+//@   ensures [C11] r0 == nil ==> b.remain == 0
+//@   ensures remOK(b) && pos(b.reader.br) >= old(pos(b.reader.br)) && noInc(b) && charged(b) && exactTop(b)
 
 
 //@ func (*Reader).readMeta
 //@   props C01 C02 C11
 //@   requires wf0(b)
 //@   modifies stream(b.reader.br), b.remain, b.outer.remain, b.outer.outer.remain, b.reader.offset, box.flags, r.heic, r.prvw, foreign
-//@   ensures remOK(b) && pos(b.reader.br) >= old(pos(b.reader.br)) && noInc(b) && charged(b)
-//@   loop 0 invariant remOK(b) && pos(b.reader.br) >= old(pos(b.reader.br)) && noInc(b) && charged(b)
+//@   ensures [C11] err == nil ==> b.remain == 0
+//@   ensures remOK(b) && pos(b.reader.br) >= old(pos(b.reader.br)) && noInc(b) && charged(b) && exactTop(b)
+//@   loop 0 invariant remOK(b) && pos(b.reader.br) >= old(pos(b.reader.br)) && noInc(b) && charged(b) && exactTop(b)
 //@   loop 0 invariant ok && err == nil ==> inner.outer == b && inner.reader == b.reader && inner.remain >= 0
+//@   loop 0 cutexits
 //@   loop 0 decreases ite(ok && err == nil, 1, 0), b.remain
 
 
@@ -425,8 +453,9 @@ package isobmff
 //@   props C01 C02 C11
 //@   requires wf0(b)
 //@   modifies stream(b.reader.br), b.remain, b.outer.remain, b.outer.outer.remain, b.reader.offset, r.prvw, foreign
-//@   ensures remOK(b) && pos(b.reader.br) >= old(pos(b.reader.br)) && noInc(b) && charged(b)
-//@   loop 0 invariant remOK(b) && pos(b.reader.br) >= old(pos(b.reader.br)) && noInc(b) && charged(b)
+//@   ensures [C11] err == nil ==> b.remain == 0
+//@   ensures remOK(b) && pos(b.reader.br) >= old(pos(b.reader.br)) && noInc(b) && charged(b) && exactTop(b)
+//@   loop 0 invariant remOK(b) && pos(b.reader.br) >= old(pos(b.reader.br)) && noInc(b) && charged(b) && exactTop(b)
 //@   loop 0 invariant ok && err == nil ==> inner.outer == b && inner.reader == b.reader && inner.remain >= 0
 //@   loop 0 decreases ite(ok && err == nil, 1, 0), b.remain
 
@@ -435,15 +464,16 @@ package isobmff
 //@   props C01 C02 C11
 //@   requires wf1(b)
 //@   modifies stream(b.reader.br), b.remain, b.outer.remain, b.outer.outer.remain, b.reader.offset
-//@   ensures remOK(b) && pos(b.reader.br) >= old(pos(b.reader.br)) && noInc(b) && charged(b)
-//@   ensures err == nil ==> inner.outer == b && inner.reader == b.reader && inner.remain >= 0
+//@   ensures remOK(b) && pos(b.reader.br) >= old(pos(b.reader.br)) && noInc(b) && charged(b) && exactTop(b)
+//@   ensures err == nil ==> inner.outer == b && inner.reader == b.reader && inner.remain >= 0 && inner.boxType == typeExif
 
 
 //@ func (*Reader).readMdat
 //@   props C01 C02 C11
 //@   requires wf1(b)
 //@   modifies stream(b.reader.br), b.remain, b.outer.remain, b.outer.outer.remain, b.reader.offset, foreign
-//@   ensures remOK(b) && pos(b.reader.br) >= old(pos(b.reader.br)) && noInc(b) && charged(b)
+//@   ensures [C11] err == nil ==> b.remain == 0
+//@   ensures remOK(b) && pos(b.reader.br) >= old(pos(b.reader.br)) && noInc(b) && charged(b) && exactTop(b)
 
 
 // Callbacks receive a box as their reader. A callback lives in another package: it may change anything that is not
@@ -453,8 +483,11 @@ package isobmff
 //@ dep callback isobmff.Reader.ExifReader
 //@   names r h -> err
 //@   requires [C11] wf2(as(r, "*isobmff.box"))
+//@   requires [C11] cmtDir(as(r, "*isobmff.box").boxType, h.FirstIfd)
+//@   requires [C06 C11] h.TiffHeaderOffset == 0 && h.ExifLength == uint32(as(r, "*isobmff.box").remain + 8)
+//@   requires [C06 C07 C11] hdrAt(h, as(r, "*isobmff.box").reader.br, pos(as(r, "*isobmff.box").reader.br) - 8)
 //@   modifies stream(as(r, "*isobmff.box").reader.br), as(r, "*isobmff.box").remain, as(r, "*isobmff.box").outer.remain, as(r, "*isobmff.box").outer.outer.remain, as(r, "*isobmff.box").reader.offset, foreign(isobmff)
-//@   ensures remOK(as(r, "*isobmff.box")) && pos(as(r, "*isobmff.box").reader.br) >= old(pos(as(r, "*isobmff.box").reader.br)) && noInc(as(r, "*isobmff.box")) && charged(as(r, "*isobmff.box"))
+//@   ensures remOK(as(r, "*isobmff.box")) && pos(as(r, "*isobmff.box").reader.br) >= old(pos(as(r, "*isobmff.box").reader.br)) && noInc(as(r, "*isobmff.box")) && charged(as(r, "*isobmff.box")) && exactTop(as(r, "*isobmff.box"))
 
 // the CR3 readers receive Reader.ExifReader as a parameter and pass it on unchanged
 //@ dep callback isobmff.readCMTBox.exifReader = isobmff.Reader.ExifReader
@@ -464,13 +497,14 @@ package isobmff
 //@   names r -> err
 //@   requires [C11] wf2(as(r, "*isobmff.box"))
 //@   modifies stream(as(r, "*isobmff.box").reader.br), as(r, "*isobmff.box").remain, as(r, "*isobmff.box").outer.remain, as(r, "*isobmff.box").outer.outer.remain, as(r, "*isobmff.box").reader.offset, foreign(isobmff)
-//@   ensures remOK(as(r, "*isobmff.box")) && pos(as(r, "*isobmff.box").reader.br) >= old(pos(as(r, "*isobmff.box").reader.br)) && noInc(as(r, "*isobmff.box")) && charged(as(r, "*isobmff.box"))
+//@   ensures remOK(as(r, "*isobmff.box")) && pos(as(r, "*isobmff.box").reader.br) >= old(pos(as(r, "*isobmff.box").reader.br)) && noInc(as(r, "*isobmff.box")) && charged(as(r, "*isobmff.box")) && exactTop(as(r, "*isobmff.box"))
 
 //@ dep callback isobmff.Reader.PreviewImageReader
 //@   names r h -> err
 //@   requires [C11] wf2(as(r, "*isobmff.box"))
+//@   requires [C11] h.Size == be32At(as(r, "*isobmff.box").reader.br, pos(as(r, "*isobmff.box").reader.br) - 4) && h.Width == be16At(as(r, "*isobmff.box").reader.br, pos(as(r, "*isobmff.box").reader.br) - 10) && h.Height == be16At(as(r, "*isobmff.box").reader.br, pos(as(r, "*isobmff.box").reader.br) - 8)
 //@   modifies stream(as(r, "*isobmff.box").reader.br), as(r, "*isobmff.box").remain, as(r, "*isobmff.box").outer.remain, as(r, "*isobmff.box").outer.outer.remain, as(r, "*isobmff.box").reader.offset, foreign(isobmff)
-//@   ensures remOK(as(r, "*isobmff.box")) && pos(as(r, "*isobmff.box").reader.br) >= old(pos(as(r, "*isobmff.box").reader.br)) && noInc(as(r, "*isobmff.box")) && charged(as(r, "*isobmff.box"))
+//@   ensures remOK(as(r, "*isobmff.box")) && pos(as(r, "*isobmff.box").reader.br) >= old(pos(as(r, "*isobmff.box").reader.br)) && noInc(as(r, "*isobmff.box")) && charged(as(r, "*isobmff.box")) && exactTop(as(r, "*isobmff.box"))
 
 //@ func (*Reader).reset
 //@   props C01
@@ -487,6 +521,7 @@ package isobmff
 //@   requires r.br != nil
 //@   modifies stream(r.br), r.offset, r.heic, r.prvw, box.flags, foreign
 //@   ensures pos(r.br) >= old(pos(r.br))
+//@   ensures [C11] err == nil ==> atEnd(r) || pos(r.br) == old(pos(r.br)) + int(boxSizeAt(r.br, old(pos(r.br))))
 
 //@ func NewReader
 //@   props C01
